@@ -355,3 +355,80 @@ package pipe
 //@     ensures [C13] every_element_once_in_order: !sawCancel ==> drained(in) && sent(out) == rcvd(in)
 //@     ensures [C13] one_token_per_element_until_the_pacer_stops: !drained(ctl) ==> len(sent(out)) <= len(rcvd(ctl))
 //@     ensures delivered_is_a_prefix: isPrefix(sent(out), total(in))
+
+// ---- the unbounded channel (C08): linked queue + pump goroutine ----
+//
+// Ghost fields of a queue: the live nodes are nodes[off], ..., nodes[off+n-1] in link order,
+// qview is the list of the values they hold. qinv ties them to the heap.
+
+//@ ghostfield queue nodes map[int]*q[A]
+//@ ghostfield queue off int
+//@ ghostfield queue n int
+//@ ghostfield queue qview []A
+
+//@ pred qinv(queue) = queue != nil && n(queue) >= 0 && len(qview(queue)) == n(queue)
+//@   | && (n(queue) == 0 ==> queue.head == nil && queue.tail == nil)
+//@   | && (n(queue) > 0 ==> queue.head == nodes(queue)[off(queue)] && queue.tail == nodes(queue)[off(queue) + n(queue) - 1] && nodes(queue)[off(queue) + n(queue) - 1].next == nil)
+//@   | && (forall k Int :: off(queue) <= k && k < off(queue) + n(queue) - 1 ==> nodes(queue)[k].next == nodes(queue)[k + 1])
+//@   | && (forall k Int :: off(queue) <= k && k < off(queue) + n(queue) ==> nodes(queue)[k] != nil && alloc(nodes(queue)[k]) && !pooled(nodes(queue)[k]) && nodes(queue)[k].value != nil && alloc(nodes(queue)[k].value) && deref(nodes(queue)[k].value) == qview(queue)[k - off(queue)])
+//@   | && (forall k Int, j Int :: off(queue) <= k && k < j && j < off(queue) + n(queue) ==> nodes(queue)[k] != nodes(queue)[j])
+
+//@ func newq
+//@   props C08
+//@   ensures result != nil && qinv(result) && qview(result) == []
+//@   gset n(queue) = 0
+//@   gset off(queue) = 0
+//@   gset qview(queue) = []
+
+//@ func enq
+//@   props C08
+//@   opt lemmas=nth_snocl
+//@   requires inv: qinv(queue)
+//@   requires nonnil: x != nil && alloc(x)
+//@   modifies queue.head, queue.tail, anyfield(q, value), anyfield(q, next), nodes(queue), n(queue), qview(queue), Pooled, Alloc
+//@   ensures appends_at_the_back: qinv(queue) && qview(queue) == snoc(old(qview(queue)), old(deref(x)))
+//@   gset nodes(queue) = store(old(nodes(queue)), old(off(queue)) + old(n(queue)), val)
+//@   gset n(queue) = old(n(queue)) + 1
+//@   gset qview(queue) = snoc(old(qview(queue)), deref(x))
+
+//@ func deq
+//@   props C08
+//@   requires qinv(queue) && n(queue) > 0
+//@   modifies queue.head, queue.tail, off(queue), n(queue), qview(queue), Pooled
+//@   ensures removes_from_the_front: qinv(queue) && qview(queue) == tl(old(qview(queue))) && result != nil && deref(result) == hd(old(qview(queue)))
+//@   gset off(queue) = old(off(queue)) + 1
+//@   gset n(queue) = old(n(queue)) - 1
+//@   gset qview(queue) = tl(old(qview(queue)))
+
+//@ func head
+//@   props C08
+//@   pure
+//@   requires qinv(queue)
+//@   ensures front_or_zero: result == ite(n(queue) == 0, zero(A), hd(qview(queue)))
+
+//@ func emit
+//@   props C08
+//@   pure
+//@   requires qinv(queue)
+//@   ensures nil_iff_empty: result == ite(n(queue) == 0, nil, ch)
+
+//@ func New
+//@   props C08
+//@   requires cap >= 0
+//@   go 0:
+//@     props C08
+//@     opt takes=eg
+//@     opt closes=in
+//@     opt inputs=in
+//@     opt baresend=delivery
+//@     opt lemmas=tol_snocl
+//@     requires qinv(mq) && qview(mq) == [] && eg != in && in != nil
+//@     loop 0 invariant qinv(mq) && !closed(eg) && !closed(in) && !sawCancel && !drained(in) && tol(sent(eg), qview(mq)) == rcvd(in)
+//@     loop 1 invariant qinv(mq) && !closed(eg) && tol(sent(eg), qview(mq)) == rcvd(in)
+//@     loop 2 invariant qinv(mq) && !closed(eg) && drained(in) && tol(sent(eg), qview(mq)) == rcvd(in)
+//@     loop 2 decreases n(mq)
+//@     loop 3 invariant qinv(mq) && !closed(eg) && drained(in) && tol(sent(eg), qview(mq)) == rcvd(in)
+//@     loop 3 decreases n(mq)
+//@     ensures closes_receive_side: closed(eg)
+//@     ensures fifo_lossless_duplicate_free: sent(eg) == rcvd(in)
+//@     ensures every_completed_send_is_delivered: drained(in)
